@@ -2467,10 +2467,10 @@ class Wallet(object):
             newpath = topkey.path
             n_items = len(str(dbkey.path).split('/'))
             # Account and change of the new keys follow from the path, also if only extra keys are added below
-            if not account_id:
-                account_id = 0 if ("account'" not in self.key_path or
-                                   self.key_path.index("account'") >= len(fullpath)) \
-                    else int(fullpath[self.key_path.index("account'")][:-1])
+            if "account'" in self.key_path and self.key_path.index("account'") < len(fullpath):
+                account_id = int(fullpath[self.key_path.index("account'")][:-1])
+            elif not account_id:
+                account_id = 0
             change_pos = [self.key_path.index(chg) for chg in ["change", "change'"] if chg in self.key_path]
             change = None if not change_pos or change_pos[0] >= len(fullpath) else (
                 int(fullpath[change_pos[0]].strip("'")))
